@@ -229,11 +229,12 @@ func verifyReal(ops []op, root []byte, store string, key []byte, value []byte, a
 // ---------------------------------------------------------------- mutations
 
 type mutant struct {
-	label string
-	ops   []op
-	root  []byte
-	key   []byte
-	value []byte
+	label    string
+	ops      []op
+	root     []byte
+	key      []byte
+	value    []byte
+	kindSwap bool // verify the opposite kind of statement (absence instead of value and vice versa)
 }
 
 func flip(b []byte) []byte {
@@ -337,7 +338,7 @@ func mutatePath(loc string, p iavl.PathToLeaf, emit func(label string, np iavl.P
 func mutants(ops []op, root, key, value []byte, absence bool) []mutant {
 	var out []mutant
 	add := func(label string, nops []op) {
-		out = append(out, mutant{label, nops, root, key, value})
+		out = append(out, mutant{label: label, ops: nops, root: root, key: key, value: value})
 	}
 	for oi, o := range ops {
 		withRange := func(f func(rp *iavl.RangeProof)) []op {
@@ -361,6 +362,12 @@ func mutants(ops []op, root, key, value []byte, absence bool) []mutant {
 				c[oi].typ = "v"
 			}
 			add(pre+".optype.swapped", c)
+			// the same proof offered for the opposite statement about the same key
+			v2 := value
+			if absence {
+				v2 = []byte("1")
+			}
+			out = append(out, mutant{label: "stmt.kind.swapped", ops: cpOps(c), root: root, key: key, value: v2, kindSwap: true})
 		}
 		c := append(cpOps(ops[:oi]), cpOps(ops[oi+1:])...)
 		add(pre+".op-dropped", c)
@@ -454,13 +461,13 @@ func mutants(ops []op, root, key, value []byte, absence bool) []mutant {
 	}
 	// --- statement level
 	for _, k := range sortedKeys(byteMuts(root)) {
-		out = append(out, mutant{"stmt.root." + k, cpOps(ops), byteMuts(root)[k], key, value})
+		out = append(out, mutant{label: "stmt.root." + k, ops: cpOps(ops), root: byteMuts(root)[k], key: key, value: value})
 	}
 	for _, k := range sortedKeys(byteMuts(key)) {
 		if k == "nil" {
 			continue
 		}
-		out = append(out, mutant{"stmt.key." + k, cpOps(ops), root, byteMuts(key)[k], value})
+		out = append(out, mutant{label: "stmt.key." + k, ops: cpOps(ops), root: root, key: byteMuts(key)[k], value: value})
 	}
 	if !absence {
 		for _, k := range sortedKeys(byteMuts(value)) {
@@ -468,7 +475,7 @@ func mutants(ops []op, root, key, value []byte, absence bool) []mutant {
 			if nv == nil {
 				nv = []byte{}
 			}
-			out = append(out, mutant{"stmt.value." + k, cpOps(ops), root, key, nv})
+			out = append(out, mutant{label: "stmt.value." + k, ops: cpOps(ops), root: root, key: key, value: nv})
 		}
 	}
 	return out
@@ -846,22 +853,37 @@ func history(r *gen.R, t *gen.Trace, budget, maxMut int) {
 				// every single-field mutation of the valid proof
 				ms := mutants(q.ops, root, k, q.value, absence)
 				if maxMut > 0 && len(ms) > maxMut {
-					// deterministic thinning
-					step := len(ms)/maxMut + 1
-					off := r.Intn(step)
-					var th []mutant
-					for i := off; i < len(ms); i += step {
-						th = append(th, ms[i])
+					// thinning (quick tier): op-, leaf-, storeinfo- and statement-level mutants are always
+					// kept; the per-node mutants of the paths are sampled
+					var keep, rest []mutant
+					for _, m := range ms {
+						if strings.Contains(m.label, "leftpath") || strings.Contains(m.label, "innernodes") {
+							rest = append(rest, m)
+						} else {
+							keep = append(keep, m)
+						}
 					}
-					ms = th
+					step := len(rest)/maxMut + 1
+					for i := r.Intn(step); i < len(rest); i += step {
+						keep = append(keep, rest[i])
+					}
+					ms = keep
 				}
 				base := serOps(q.ops)
 				for _, m := range ms {
 					if serOps(m.ops) == base && bytes.Equal(m.root, root) && bytes.Equal(m.key, k) && bytes.Equal(m.value, q.value) {
 						continue // not a mutation after canonical encoding
 					}
-					vd := verifyReal(m.ops, m.root, n, m.key, m.value, absence)
-					t.Line("mut:"+kind, vd == "accept", "verify %s %s %s %s %s %s %s => %s", m.label, kind, hx(m.root), hx([]byte(n)), hx(m.key), gen.Hex(m.value), serOps(m.ops), vd)
+					mabs, mkind, mval := absence, kind, m.value
+					if m.kindSwap {
+						mabs = !absence
+						mkind = map[string]string{"v": "a", "a": "v"}[kind]
+						if mabs {
+							mval = nil
+						}
+					}
+					vd := verifyReal(m.ops, m.root, n, m.key, mval, mabs)
+					t.Line("mut:"+kind, vd == "accept", "verify %s %s %s %s %s %s %s => %s", m.label, mkind, hx(m.root), hx([]byte(n)), hx(m.key), gen.Hex(mval), serOps(m.ops), vd)
 				}
 			}
 			// structured forgeries: several fields changed together by somebody who knows the verifier
